@@ -20,7 +20,7 @@ theorem opts_env (s : S) (e : EnvAct) : (envStep s e).opts = s.opts := by
   cases e <;> simp only [envStep, S.opts] <;> (try split) <;> rfl
 
 theorem opts_main (s : S) : (mainStep s).opts = s.opts := by
-  unfold mainStep nextJoin enterJoin afterJoins S.opts
+  unfold mainStep nextJoin enterJoin afterJoins leaveWait S.opts
   cases s.mainPc <;> simp only [] <;> (repeat' split) <;> simp_all
 
 theorem opts_stdin (s : S) : (stdinStep s).opts = s.opts := by
@@ -35,7 +35,9 @@ theorem opts_timer (s : S) : (timerStep s).opts = s.opts := by
   · rfl
   · split
     · rfl
-    · have := opts_kill s; simp only [S.opts] at this ⊢; simpa using this
+    · split
+      · rfl
+      · have := opts_kill s; simp only [S.opts] at this ⊢; simpa using this
     · rfl
     · rfl
 
@@ -84,7 +86,7 @@ theorem mainStep_stdin_frame (s : S) :
     (mainStep s).fwd = s.fwd ∧ (mainStep s).inPc = s.inPc ∧ (mainStep s).inScript = s.inScript ∧
     (mainStep s).closeCount = s.closeCount ∧ (mainStep s).inClosed = s.inClosed ∧
     (mainStep s).echoed = s.echoed ∧ (s.fin = true → (mainStep s).fin = true) := by
-  unfold mainStep nextJoin enterJoin afterJoins S.fwd
+  unfold mainStep nextJoin enterJoin afterJoins leaveWait S.fwd
   cases s.mainPc <;> simp only [] <;> (repeat' split) <;> simp_all [List.filter_append]
 
 theorem stdinInv_main (ins0 : List InItem) (s : S) (h : StdinInv ins0 s) : StdinInv ins0 (mainStep s) := by
@@ -115,18 +117,20 @@ theorem stdinInv_timer (ins0 : List InItem) (s : S) (h : StdinInv ins0 s) : Stdi
   · exact ⟨h1, h2, h3, h4, h5, h6, h7⟩
   · split
     · exact ⟨h1, h2, h3, h4, h5, h6, h7⟩
-    · obtain ⟨k1, k2, k3, k4, k5, k6, k7⟩ := killEffect_stdin_frame s
-      have ko := opts_kill s
-      simp only [S.opts, Prod.mk.injEq] at ko
-      obtain ⟨o1, _, _, o4, o5, _⟩ := ko
-      refine ⟨?_, ?_, ?_, ?_, ?_, ?_, ?_⟩ <;> simp only [S.fwd, S.inPending, k1, k2, k3, k4, k5, k6, k7, o1, o4, o5]
-      · exact h1
-      · exact h2
-      · exact h3
-      · exact h4
-      · exact h5
-      · exact h6
-      · exact h7
+    · split
+      · exact ⟨h1, h2, h3, h4, h5, h6, h7⟩
+      · obtain ⟨k1, k2, k3, k4, k5, k6, k7⟩ := killEffect_stdin_frame s
+        have ko := opts_kill s
+        simp only [S.opts, Prod.mk.injEq] at ko
+        obtain ⟨o1, _, _, o4, o5, _⟩ := ko
+        refine ⟨?_, ?_, ?_, ?_, ?_, ?_, ?_⟩ <;> simp only [S.fwd, S.inPending, k1, k2, k3, k4, k5, k6, k7, o1, o4, o5]
+        · exact h1
+        · exact h2
+        · exact h3
+        · exact h4
+        · exact h5
+        · exact h6
+        · exact h7
     · exact ⟨h1, h2, h3, h4, h5, h6, h7⟩
     · exact ⟨h1, h2, h3, h4, h5, h6, h7⟩
 
